@@ -864,3 +864,205 @@ def r11(R):
             R.violation(v.node, v.message, g, v.path)
     R.require(n >= 1, 'no public method opens the data file by name any '
               'more')
+
+
+# ------------------------------------------------------------------ C08.R12
+@rule('C08.R12', 'the handle through which the packer reads the data file '
+      'while commits go on is UNBUFFERED: pack() re-opens it with buffering '
+      '0 (a read-ahead buffer filled while the commit lock is released '
+      'holds bytes of a transaction that may be aborted and overwritten)',
+      min_instances=1)
+def r12(R):
+    cls = R.prog.cls(PACKER)
+    f = R.method(cls, 'pack')
+    n = 0
+    for a in walk_local(f.node):
+        if not (isinstance(a, ast.Assign) and any(
+                dotted(t) == ('self', '_file') for t in a.targets)):
+            continue
+        v = a.value
+        if not (isinstance(v, ast.Call) and isinstance(v.func, ast.Name)
+                and v.func.id == 'open'):
+            continue
+        n += 1
+        R.instance('FileStoragePacker.pack: %s' %
+                   ' '.join(ast.unparse(a).split())[:60])
+        buf = v.args[2] if len(v.args) >= 3 else next(
+            (k.value for k in v.keywords if k.arg == 'buffering'), None)
+        if not (isinstance(buf, ast.Constant) and buf.value == 0 and
+                not isinstance(buf.value, bool)):
+            R.violation(
+                (f.module.relpath, f.qualname,
+                 ' '.join(ast.unparse(a).split()), a.lineno),
+                'the packer re-opens the data file BUFFERED (`%s`): while '
+                'copyOne() has released the commit lock, a transaction can '
+                'be voted and aborted and another committed at the same '
+                'offset; the packer\'s next read is served from its stale '
+                'buffer -- it copies the aborted bytes into the packed '
+                'file instead of the committed transaction' %
+                ' '.join(ast.unparse(v).split())[:50],
+                key='packer handle buffered')
+    R.require(n >= 1, 'FileStoragePacker.pack no longer re-opens its '
+              'data-file handle')
+
+
+# ------------------------------------------------------------------ C08.R13
+@rule('C08.R13', 'a blob file is moved into the blob directory -- its '
+      'directory created, the file renamed -- under the storage lock, the '
+      'lock under which a pack removes emptied blob directories',
+      props=['C13'], min_instances=2)
+def r13(R):
+    from ..locks import explore_locksets
+    cls = R.prog.cls('ZODB.blob.BlobStorageMixin')
+    f = R.method(cls, '_blob_storeblob')
+    g, b, F = R.cfg(f, cls, max_depth=0)
+    n = [0]
+
+    def fs_ops(node):
+        out = []
+        for op in F.ops(node):
+            if op.kind != 'call' or not isinstance(op.ast, ast.Call):
+                continue
+            dn = dotted(op.ast.func)
+            if not dn:
+                continue
+            if dn[-1] == 'getPathForOID' and any(
+                    k.arg == 'create' and isinstance(k.value, ast.Constant)
+                    and k.value.value for k in op.ast.keywords):
+                out.append(op)
+            elif dn[-1] in ('rename_or_copy_blob', 'rename', 'replace',
+                            'link_or_copy', 'makedirs', 'mkdir'):
+                out.append(op)
+        return out
+
+    def check(node, held):
+        ops = fs_ops(node)
+        if ops and ('self', '_lock') not in held:
+            return ('_blob_storeblob does `%s` without the storage lock: a '
+                    'pack removing the last garbage blob below the same '
+                    'parent directory removes the (momentarily empty) '
+                    'directory between its creation and the move -- the '
+                    'commit fails, or the file lands nowhere' %
+                    ' '.join(ast.unparse(ops[0].ast).split())[:60])
+        return None
+
+    for nid in g.reachable():
+        n[0] += len(fs_ops(g.nodes[nid]))
+    vs, stats = explore_locksets(g, F, check)
+    R.count(stats)
+    R.instance('BlobStorageMixin._blob_storeblob', file_system_steps=n[0])
+    R.instance('FileStorage pack removes emptied blob directories under '
+               'the same lock (C13 rules)')
+    R.require(n[0] >= 2, '_blob_storeblob no longer creates the directory '
+              'and moves the file')
+    for v in vs[:1]:
+        R.violation(v.node, v.message, g, v.path,
+                    key='blob moved into place without the storage lock')
+
+
+# ------------------------------------------------------------------ C08.R14
+@rule('C08.R14', 'the time a demo storage remembers its changes to be packed '
+      'to never moves back, and is raised BEFORE the changes are packed '
+      '(a reader older than the pack must not be handed the base\'s '
+      'revision while, or after, the pack removes what it should see)',
+      props=['C16', 'C02'], min_instances=1)
+def r14(R):
+    from ..twopc import DS
+    cls = R.prog.cls(DS)
+    f = R.method(cls, 'pack')
+    g, b, F = R.cfg(f, cls, max_depth=0)
+    stores = [0]
+
+    def is_store(op):
+        return op.kind == 'store' and path_is(op.path,
+                                              ('self', '_packed_to'))
+
+    def is_old(e, node):
+        """the remembered time, or a local that only ever held it"""
+        if dotted(e) == ('self', '_packed_to'):
+            return True
+        if isinstance(e, ast.Name):
+            pv = provenance(e, node.frame, F)
+            return ('path', ('self', '_packed_to')) in pv and not any(
+                k_ == 'call' or (k_ == 'param' and v_ != 'self')
+                for k_, v_ in pv)
+        return False
+
+    def edge(node, st, lab, tgt):
+        raised, guarded = st
+        if node.kind == 'test' and lab in ('T', 'F'):
+            for e, truth in implied_atoms(node.ast, lab):
+                if isinstance(e, ast.Compare) and len(e.ops) == 1:
+                    for l, op, r in cmp_sides(e):
+                        # both orientations are listed: `new OP old`
+                        if is_old(r, node) and not is_old(l, node) and \
+                                op in (ast.Gt, ast.GtE, ast.Lt, ast.LtE):
+                            if (op in (ast.Gt, ast.GtE)) == truth:
+                                guarded = True     # the new time is later
+                            else:
+                                raised = True      # already that late
+        if lab in ('e', 'eb'):
+            return (raised, False)
+        for op in F.ops(node):
+            if is_store(op):
+                v = store_value(op)
+                mx = isinstance(v, ast.Call) and isinstance(
+                    v.func, ast.Name) and v.func.id == 'max' and any(
+                        dotted(a) == ('self', '_packed_to') for a in v.args)
+                if guarded or mx:
+                    raised = True
+        if node.kind not in ('test',):
+            guarded = guarded and not any(is_store(op) for op in F.ops(node))
+        return (raised, guarded)
+
+    def at(node, st):
+        raised, guarded = st
+        for op in F.ops(node):
+            if is_store(op):
+                stores[0] += 1
+                v = store_value(op)
+                mx = isinstance(v, ast.Call) and isinstance(
+                    v.func, ast.Name) and v.func.id == 'max' and any(
+                        dotted(a) == ('self', '_packed_to') for a in v.args)
+                pv = provenance(v, node.frame, F) if v is not None \
+                    else set()
+                # put back after a failed pack: a local that only ever
+                # held the old value
+                restore = isinstance(v, ast.Name) and (
+                    'path', ('self', '_packed_to')) in pv and not any(
+                        k_ == 'call' or (k_ == 'param' and v_ != 'self')
+                        for k_, v_ in pv)
+                if not guarded and not mx and not restore:
+                    return Violation(
+                        'DemoStorage.pack assigns self._packed_to without '
+                        'holding the new time against the old one: a pack '
+                        'to an EARLIER time (a FileStorage treats it as '
+                        'redundant and returns) moves it back; a reader '
+                        'whose snapshot lies between the two times is '
+                        'handed the base\'s revision of an object whose '
+                        'revision the first pack removed')
+            if op.kind == 'call' and path_is(
+                    op.path, ('self', 'changes', 'pack')) and not raised \
+                    and not standalone_path(node):
+                return Violation(
+                    'DemoStorage.pack packs the changes before it has '
+                    'raised self._packed_to: a reader older than the pack '
+                    'time that loads while the pack runs finds nothing in '
+                    'the changes any more and, the time not yet raised, is '
+                    'handed the base\'s older revision')
+        return st
+
+    # the stand-alone returns (`return self.changes.pack(...)`: there is no
+    # base to fall back to wrongly) are not the layered pack
+    def standalone_path(node):
+        return isinstance(node.ast, ast.Return) or node.kind == 'return'
+
+    vs, stats = explore(g, (False, False), at=at, edge=edge)
+    R.count(stats)
+    R.instance('DemoStorage.pack', packed_to_stores=stores[0])
+    R.require(stores[0] >= 1 or vs, 'DemoStorage.pack no longer records '
+              'the pack time')
+    for v in vs[:1]:
+        R.violation(v.node, v.message, g, v.path,
+                    key='pack time of the changes not raised first, or '
+                        'moved back')
